@@ -54,23 +54,7 @@ def run(ck: Checker):
             ck.check(not probs, 'C05.TPL', hmod, h, f'clauses of {t}/{n} equivalent to top <-> {t}(l1..l{n})',
                      '; '.join(probs[:3]) + (f' (+{len(probs) - 3} more rows)' if len(probs) > 3 else ''),
                      detail={'clauses': cnf}, construct=cons)
-    # repeated operands: the same literal in several operand positions (XOR(x, x) = 0, AND(x, x) = x ...)
-    for t, (hmod, hname, vnode, knode) in table.items():
-        if t == 'INPUT' or semantics.ORACLE[t][0] == semantics.ANY:
-            continue
-        h = hmod.func(hname)
-        for n in [a for a in semantics.arities(t, 3) if a >= 2]:
-            probs = []
-            for pat in ct.patterns(n):
-                cnf = ct.clauses_for(repo, hmod, hname, pat, max(pat) + 1)
-                if isinstance(cnf, str):
-                    probs.append(f'operands {pat}: handler raises {cnf}')
-                    continue
-                pr = ct.check_pattern(t, pat, cnf)
-                if pr:
-                    probs.append(pr[0])
-            ck.check(not probs, 'C05.TPL', hmod, h, f'clauses of {t}/{n} stay exact when operands repeat (all equality patterns)',
-                     '; '.join(probs[:3]), construct=f'{hname} for {t} arity {n} with repeated operands')
+    ct.check_repeats(ck, table, 'C05.TPL')
     ck.floor('C05.TPL', 40)
 
     # ---- C05.ALLOC / UNIT ------------------------------------------------
@@ -78,6 +62,12 @@ def run(ck: Checker):
 
     # ---- C05.SAT ---------------------------------------------------------
     _sat(ck)
+
+    # ---- C05.FOLD (last: an uninterpretable rewrite of the driver is reported by the shape rules above first)
+    ck.rule('C05.FOLD', 'tseytin_transformation folded as a whole over a family of model circuits and output selections; each clause set decided against the circuit for every input assignment (inputs = variables 1..n, satisfiable iff the selected outputs are True, every variable determined)')
+    from .. import passes
+    passes.fold_tseytin(ck, 'C05.FOLD')
+    ck.floor('C05.FOLD', 1)
 
 
 def _find_nested(mod, fn, name):
